@@ -396,6 +396,26 @@ pub fn mtu(tier: Tier, link_mtu: usize, path_limit: Option<usize>, emsgsize: Opt
     Driver { name: format!("mtu-{link_mtu}-path{path_limit:?}-emsg{emsgsize:?}-retx{probe_retx}"), cfg, prefix, alphabet, depth, state_cap: tier.pick(200_000, 3_000_000) }
 }
 
+/// An MTU probe behind ordinary segments, with selective ACKs that name the probe only.
+pub fn mtu_probe_sacked(tier: Tier, probe_retx: usize, depth: usize) -> Driver {
+    let mut d = mtu(tier, 700, None, None, probe_retx, depth);
+    let def = WndSpec::Default;
+    d.name = format!("mtu-probe-sacked-retx{probe_retx}");
+    // 528 + 591 (first probe) + 3 x 591 + 622 (second probe): the data ends exactly with a probe, so that
+    // the probe stays the newest segment
+    d.prefix = vec![Act::Write(3000), Act::Write(514), state(AckSpec::All, def, SackSpec::None), state(AckSpec::All, def, SackSpec::None)];
+    d.alphabet = vec![
+        state(AckSpec::Plus(1), def, SackSpec::None),
+        state(AckSpec::Cur, def, SackSpec::None),
+        state(AckSpec::All, def, SackSpec::None),
+        state(AckSpec::Cur, def, SackSpec::Raw(vec![0b10, 0, 0, 0, 0, 0, 0, 0])),
+        state(AckSpec::Cur, def, SackSpec::Raw(vec![0b100, 0, 0, 0, 0, 0, 0, 0])),
+        state(AckSpec::Cur, def, SackSpec::AllSent),
+        Act::Tick,
+    ];
+    d
+}
+
 pub fn run_and_report(ctx: &Ctx, d: &Driver, out: &mut Outcome) {
     let r = run_driver(ctx, d);
     report(d, &r, out);
@@ -421,5 +441,7 @@ pub fn all_drivers(tier: Tier) -> Vec<Driver> {
     v.extend(hostile_all(tier, 2));
     v.push(mtu(tier, 700, Some(600), None, 0, 6));
     v.push(mtu(tier, 700, None, None, 1, 6));
+    v.push(mtu_probe_sacked(tier, 0, 5));
+    v.push(mtu_probe_sacked(tier, 1, 5));
     v
 }
